@@ -7,6 +7,7 @@ mod c13serve;
 mod c14;
 mod c15;
 mod c16;
+mod c17e2e;
 mod c17live;
 mod c18;
 mod c20;
@@ -73,6 +74,7 @@ fn scenario_for(property: &str, name: &str, thorough: bool, known: &Known) -> Op
         ("C13", "lock-queue") => Box::new(props_session::c13_locks(known)),
         ("C13", "serve-pipelined") => Box::new(c13serve::scenario(known, true)),
         ("C13", _) => Box::new(props_session::c13(known, true)),
+        ("C17", "end-to-end") => Box::new(c17e2e::scenario()),
         ("C17", "monitoring-on") => Box::new(c17live::scenario()),
         ("C17", "adversary-core") => Box::new(props_session::c17(known, false)),
         ("C17", "adversary-key-shapes") => Box::new(props_session::c17_keys(known)),
@@ -402,6 +404,12 @@ fn main() {
                     "adversary-core".into(),
                     Box::new(props_session::c17(&known, false)),
                     Tiered { quick: lim(3, 2, false, 40), thorough: lim(4, 3, false, 600) },
+                    "tree",
+                ),
+                (
+                    "end-to-end".into(),
+                    Box::new(c17e2e::scenario()),
+                    Tiered { quick: lim(2, 1, false, 40), thorough: lim(3, 2, false, 400) },
                     "tree",
                 ),
                 (
